@@ -18,7 +18,8 @@ MANIFEST = {
             "checked on the implementation only (partial: no Gallina model of DefaultValue/TypeDef here). No axioms.",
     "design_ref": "DESIGN.md section 5 C08",
 }
-FNS = {"int": (ji(0), lambda v: isinstance(v, dict) and "i" in v), "string": (js(""), lambda v: isinstance(v, dict) and "b" in v),
+FNS = {"parse_url": (jo([]), lambda v: False), "parse_json": (None, lambda v: False),
+       "int": (ji(0), lambda v: isinstance(v, dict) and "i" in v), "string": (js(""), lambda v: isinstance(v, dict) and "b" in v),
        "bool": (False, lambda v: isinstance(v, bool)), "array": (ja([]), lambda v: isinstance(v, dict) and "a" in v),
        "object": (jo([]), lambda v: isinstance(v, dict) and "o" in v)}
 POOL = [ji(5), ji(-3), js("s"), js(""), True, False, None, ja([ji(1)]), jo([("p", ji(1))])]
@@ -43,7 +44,10 @@ def gen_targeted(run, n):
             exp = {"what": "coalesce", "succeeds": succeeds, "x": x, "b": dv}
         else:
             ok, er = rng.choice(TARGETS), rng.choice(ETARGETS)
-            prog = [("assign", ("tvar", "r", []), ("assigninf", ok, er, a, FNS[fn][0])), mark("after"), ("var", "r")]
+            # a variable's reported type is not reachable through the public API: copy it into the event, whose
+            # reported final kind is
+            copy = [set_field("okcopy", ("var", "okv"))] if ok[0] == "tvar" and not ok[2] else []
+            prog = [("assign", ("tvar", "r", []), ("assigninf", ok, er, a, FNS[fn][0]))] + copy + [mark("after"), ("var", "r")]
             exp = {"what": "assigninf", "succeeds": succeeds, "x": x, "ok": ok, "err": er, "default": FNS[fn][0]}
         cases.append({"kind": "targeted", "ast": prog, "event": jo([("x", x)]), "meta": jo([]), "vars": ["r", "okv", "errv"],
                       "expect": exp, "meta_info": {"ctx": [exp["what"] + (":ok" if succeeds else ":err")]}})
@@ -88,6 +92,10 @@ def oracle(case, out):
             if not cv.event_has(out, "b_ran"):
                 return "b was not evaluated although a failed"
         return None
+    tk = out.get("type_ok", {})
+    if tk.get("event") is False or tk.get("meta") is False:
+        return ("after `ok, err = e` the final event/metadata (holding ok's stored value) is not a member of the kind the compiler "
+                "reports for it: %s" % tk.get("event_kind"))
     okv, errv = read_target(exp["ok"], out), read_target(exp["err"], out)
     if exp["succeeds"]:
         if r != exp["x"]:
